@@ -490,3 +490,158 @@ Proof.
   erewrite map_ext. 2:{ intros. rewrite Z.add_comm. reflexivity. }
   rewrite zrange_map_add. f_equal. lia.
 Qed.
+
+(* ---- NCvcmaxcontig returns k  ==>  the dimensions after k are taken whole ---------------------- *)
+Definition tri_ok (x : Z * Z * Z) : Prop := let '(e, s, o) := x in 0 <= e <= s - o.
+Definition tri_whole (x : Z * Z * Z) : Prop := let '(e, s, o) := x in 0 <= e <= s - o /\ s <= e.
+
+Lemma scan_struct : forall l i b k,
+  maxcontig_scan l i b = Some k -> l <> [] -> (i + 1 = b + length l)%nat ->
+  exists after xk before,
+    l = after ++ xk :: before /\ (length before + b = k)%nat /\ Forall tri_whole after /\ tri_ok xk.
+Proof.
+  induction l as [| x r IH]; intros i b k H Hne Hi. congruence.
+  destruct x as [[e s] o]. cbn [maxcontig_scan] in H.
+  rewrite maxcontig_bad_spec, maxcontig_break_spec in H.
+  destruct ((0 <=? e) && (e <=? s - o)) eqn:A; simpl negb in H; cbv iota in H; [| discriminate].
+  apply andb_prop in A. destruct A as [A1 A2]. apply Z.leb_le in A1. apply Z.leb_le in A2.
+  destruct (e <? s) eqn:B.
+  - inversion H; subst. exists [], (e, s, o), r. simpl in *. repeat split; auto; lia.
+  - apply Z.ltb_ge in B. destruct r as [| y r'].
+    + simpl in H. inversion H; subst. exists [], (e, s, o), []. simpl. repeat split; auto; lia.
+    + destruct (IH (Nat.pred i) b k H) as [after [xk [before [E [L [W O]]]]]]. congruence.
+      simpl in *. lia.
+      exists ((e, s, o) :: after), xk, before. rewrite E. repeat split; auto.
+      constructor; auto. simpl. lia.
+Qed.
+
+Lemma combine3_split : forall (A : list (Z * Z * Z)) E S O x B,
+  length S = length E -> length O = length E ->
+  combine (combine E S) O = A ++ x :: B ->
+  exists E1 e E2 S1 s S2 O1 o O2,
+    E = E1 ++ e :: E2 /\ S = S1 ++ s :: S2 /\ O = O1 ++ o :: O2 /\ x = (e, s, o) /\
+    length E1 = length A /\ length S1 = length A /\ length O1 = length A /\
+    length S2 = length E2 /\ length O2 = length E2 /\
+    B = combine (combine E2 S2) O2.
+Proof.
+  induction A as [| a A IH]; intros E S O x B HS HO H.
+  - destruct E as [| e E], S as [| s S], O as [| o O]; simpl in *; try discriminate.
+    inversion H; subst. exists [], e, E, [], s, S, [], o, O. simpl. repeat split; auto; lia.
+  - destruct E as [| e E], S as [| s S], O as [| o O]; simpl in *; try discriminate.
+    inversion H; subst.
+    destruct (IH E S O x B) as [E1 [e' [E2 [S1 [s' [S2 [O1 [o' [O2 P]]]]]]]]]; try lia; auto.
+    destruct P as [P1 [P2 [P3 [P4 [P5 [P6 [P7 [P8 [P9 P10]]]]]]]]].
+    exists (e :: E1), e', E2, (s :: S1), s', S2, (o :: O1), o', O2. subst. simpl. repeat split; auto; lia.
+Qed.
+
+Lemma whole_combine : forall E2 S2 O2, length S2 = length E2 -> length O2 = length E2 ->
+  Forall (fun o => 0 <= o) O2 -> Forall tri_whole (combine (combine E2 S2) O2) ->
+  E2 = S2 /\ O2 = zeros S2.
+Proof.
+  induction E2; destruct S2, O2; simpl; intros; try discriminate; auto.
+  inversion H1; inversion H2; subst. simpl in H9. 
+  destruct (IHE2 S2 O2) as [P Q]; auto; try lia. subst.
+  split; [f_equal; lia | unfold zeros in *; simpl; f_equal; auto; lia].
+Qed.
+
+Lemma vcmaxcontig_sound : forall m origin edges k,
+  length origin = length (m_shape m) -> length edges = length (m_shape m) ->
+  ((if is_recvar m then 1 else 0) < length (m_shape m))%nat ->
+  Forall (fun o => 0 <= o) origin ->
+  vcmaxcontig m origin edges = Some k ->
+  exists pre dk post spre sk epre ek,
+    m_shape m = pre ++ dk :: post /\ origin = spre ++ sk :: zeros post /\ edges = epre ++ ek :: post /\
+    length pre = k /\ length spre = k /\ length epre = k /\ 0 <= ek <= dk - sk.
+Proof.
+  intros m origin edges k Ho He Hb Hpos H.
+  unfold vcmaxcontig in H.
+  set (b := if is_recvar m then 1%nat else 0%nat) in *.
+  set (tr := combine (combine (skipn b edges) (skipn b (m_shape m))) (skipn b origin)) in *.
+  assert (Ltr : length tr = (length (m_shape m) - b)%nat).
+  { unfold tr. rewrite !combine_length, !skipn_length. lia. }
+  destruct (scan_struct (rev tr) (Nat.pred (length (m_shape m))) b k H) as [after [xk [before [E [L [W O]]]]]].
+  - intro C. apply (f_equal (@length _)) in C. rewrite rev_length in C. simpl in C. lia.
+  - rewrite rev_length. lia.
+  - assert (T : tr = rev before ++ xk :: rev after).
+    { rewrite <- (rev_involutive tr), E. rewrite rev_app_distr. simpl. rewrite <- app_assoc. reflexivity. }
+    unfold tr in T.
+    assert (L1 : length (skipn b (m_shape m)) = length (skipn b edges)) by (rewrite !skipn_length; lia).
+    assert (L2 : length (skipn b origin) = length (skipn b edges)) by (rewrite !skipn_length; lia).
+    destruct (combine3_split (rev before) (skipn b edges) (skipn b (m_shape m)) (skipn b origin) xk (rev after) L1 L2 T)
+      as [E1 [ek [E2 [S1 [dk [S2 [O1 [sk [O2 P]]]]]]]]].
+    destruct P as [P1 [P2 [P3 [P4 [P5 [P6 [P7 [P8 [P9 P10]]]]]]]]].
+    assert (Hpos2 : Forall (fun o => 0 <= o) O2).
+    { assert (F : Forall (fun o => 0 <= o) (skipn b origin)).
+      { rewrite <- (firstn_skipn b origin) in Hpos. apply Forall_app in Hpos. tauto. }
+      rewrite P3 in F. apply Forall_app in F. destruct F as [_ F]. inversion F; auto. }
+    assert (Wr : Forall tri_whole (combine (combine E2 S2) O2)).
+    { rewrite <- P10. apply Forall_rev. auto. }
+    destruct (whole_combine E2 S2 O2 P8 P9 Hpos2 Wr) as [Q1 Q2]. subst E2 O2.
+    rewrite rev_length in P5, P6, P7.
+    exists (firstn b (m_shape m) ++ S1), dk, S2, (firstn b origin ++ O1), sk, (firstn b edges ++ E1), ek.
+    repeat split.
+    + rewrite <- app_assoc, <- P2. symmetry. apply firstn_skipn.
+    + rewrite <- app_assoc, <- P3. symmetry. apply firstn_skipn.
+    + rewrite <- app_assoc, <- P1. symmetry. apply firstn_skipn.
+    + rewrite app_length, firstn_length. lia.
+    + rewrite app_length, firstn_length. lia.
+    + rewrite app_length, firstn_length. lia.
+    + subst xk. simpl in O. lia.
+    + subst xk. simpl in O. lia.
+Qed.
+
+Lemma firstn_exact : forall {A} (l r : list A) k, length l = k -> firstn k (l ++ r) = l.
+Proof. induction l; intros; subst; simpl; auto. f_equal. auto. Qed.
+Lemma skipn_exact : forall {A} (l r : list A) k, length l = k -> skipn k (l ++ r) = r.
+Proof. induction l; intros; subst; simpl; auto. Qed.
+
+Lemma block_lin : forall m n p, length p = length (m_shape m) ->
+  block m n p = map (fun i => m_esz m * i) (zrange (lin (m_shape m) p) 1 (Z.to_nat n)).
+Proof.
+  intros. unfold block, zseq. rewrite varoffset_rowmajor_lemma by auto.
+  replace (zrange (lin (m_shape m) p) 1 (Z.to_nat n))
+    with (map (fun x => x + lin (m_shape m) p) (zrange 0 1 (Z.to_nat n))) by (rewrite zrange_map_add; reflexivity).
+  rewrite map_map. apply map_ext. intros. lia.
+Qed.
+
+(** NCvario's transfer plan, at full strength: for every variable (fixed-size or record, rank >= 1 resp. 2),
+    every non-negative start and every edge vector that NCvcmaxcontig accepts, the element offsets of the
+    transfers, concatenated in the order the ripple counter issues them, are exactly the offsets of the slab's
+    cells in row-major order. *)
+Lemma vario_plan_correct_lemma : forall m start edges ps n,
+  length start = length (m_shape m) -> length edges = length (m_shape m) ->
+  ((if is_recvar m then 1 else 0) < length (m_shape m))%nat ->
+  Forall (fun o => 0 <= o) start -> Forall (fun d => 0 <= d) (m_shape m) ->
+  vario_plan m start edges = Some (ps, n) ->
+  flat_map (block m n) ps = map (varoffset m) (slab_cells start (ones start) edges).
+Proof.
+  intros m start edges ps n Hs He Hb Hpos Hsh H.
+  unfold vario_plan in H. destruct (vcmaxcontig m start edges) as [k|] eqn:V; [| discriminate].
+  destruct (vcmaxcontig_sound m start edges k Hs He Hb Hpos V)
+    as [pre [dk [post [spre [sk [epre [ek [S1 [S2 [S3 [L1 [L2 [L3 [Hek Hek2]]]]]]]]]]]]]].
+  assert (N : prod (skipn k edges) = ek * prod post).
+  { rewrite S3. rewrite (skipn_exact epre (ek :: post) k L3). unfold prod. simpl. reflexivity. }
+  assert (P : ps = map (fun p => p ++ skipn k start) (odometer (firstn k start) (firstn k edges)) /\
+              n = ek * prod post).
+  { inversion H. split; [destruct k; auto | congruence]. }
+  clear H. destruct P; subst ps n.
+  assert (F1 : firstn k start = spre) by (rewrite S2; apply firstn_exact; auto).
+  assert (F2 : skipn k start = sk :: zeros post) by (rewrite S2; apply skipn_exact; auto).
+  assert (F3 : firstn k edges = epre) by (rewrite S3; apply firstn_exact; auto).
+  rewrite F1, F2, F3.
+  assert (Hpost : Forall (fun d => 0 <= d) post).
+  { rewrite S1 in Hsh. apply Forall_app in Hsh. destruct Hsh as [_ F]. inversion F; auto. }
+  rewrite flat_map_map'.
+  erewrite flat_map_ext'.
+  2:{ intros p Hp. rewrite odometer_slab in Hp.
+      apply slab_cells_len in Hp; [| unfold ones; rewrite map_length; auto | lia].
+      rewrite block_lin.
+      2:{ rewrite S1, !app_length. simpl. unfold zeros. rewrite map_length. lia. }
+      rewrite S1. reflexivity. }
+  rewrite <- map_flat_map.
+  rewrite vario_blocks_rowmajor_lemma by (auto; lia).
+  rewrite map_map. rewrite <- S2, <- S3, <- S1.
+  apply map_ext_in. intros c Hc.
+  apply slab_cells_len in Hc; [| unfold ones; rewrite map_length; auto | lia].
+  rewrite varoffset_rowmajor_lemma by lia. reflexivity.
+Qed.
